@@ -1,8 +1,9 @@
 (* NonVacuous/C06.v — every C06 theorem (all have hypotheses), on concrete token streams and the example tree.
    Each example: hypotheses /\ instantiated conclusion (the conclusion by applying the theorem).
+   C06_message_semantics and C06_spec_prog_consumes_prefix are instantiated on the messages of CommonMsg.v (end of the file).
    Skipped: none. *)
-From VF Require Import Base Gen_Errors Lexer Response Tree Tree_proofs Scripted.
-From VF.NonVacuous Require Import Common.
+From VF Require Import Base Gen_Errors Lexer Grammar Response Tree Tree_proofs HeaderSpec Scripted MessageSpec.
+From VF.NonVacuous Require Import Common CommonMsg.
 From VF.Properties Require C06.
 Import C06.
 Open Scope N_scope.
@@ -105,3 +106,97 @@ Qed.
 Print Assumptions C06_pull_consumes_only_data_nonvacuous.
 Print Assumptions C06_handler_stays_in_unit_nonvacuous.
 Print Assumptions C06_leftover_is_108_nonvacuous.
+
+(* ------------------------------------------------------------------ *)
+(* the theorems about the message specification, on the messages of CommonMsg.v *)
+(* ------------------------------------------------------------------ *)
+(* "*IDN?;:SOUR:VOLT:RANG 5 , #B101;LEV?": the second unit carries TWO data elements; its handler is offered exactly
+   those two, takes one (LTyped in the device log), the other is left over: -108 after the handler has run; the third
+   unit is not executed *)
+Example C06_message_semantics_nonvacuous :
+  wf_tree ex_tree /\ wf_msg m_108 = true /\
+  run ex_tree (render_msg m_108) [] f0 = Val (spec_message ex_tree m_108 [] f0) /\
+  render_msg m_108 = bs "*IDN?;:SOUR:VOLT:RANG 5 , #B101;LEV?" /\
+  unit_data q2 = [TDec (bs "5"); TNonDec 5] /\
+  spec_message ex_tree m_108 [] f0 = m_108_result /\
+  r_err m_108_result = Some (std_error ParameterNotAllowed) /\ r_out m_108_result = bs "ACME,42" /\
+  r_dev m_108_result = [LCall 1 true; LCall 3 false; LTyped] /\ length (r_trace m_108_result) = 2%nat.
+Proof.
+  exact (conj ex_tree_wf (conj m_108_wf (conj (C06_message_semantics ex_tree m_108 [] f0 ex_tree_wf m_108_wf)
+    (conj m_108_text (conj q2_data (conj m_108_spec (conj eq_refl (conj eq_refl (conj eq_refl eq_refl))))))))).
+Qed.
+
+(* seven units, three of them with one data element each; every handler sees its own unit's element (the device log
+   has LTyped / LTok (TNonDec 5) / LTyped after the calls 3, 2 and 4) and the message succeeds *)
+Example C06_message_semantics_nonvacuous_ok :
+  wf_tree ex_tree /\ wf_msg m_ok = true /\
+  run ex_tree (render_msg m_ok) [] f0 = Val (spec_message ex_tree m_ok [] f0) /\
+  render_msg m_ok = bs " :SOURce:VOLT:RANG 7 ;lev?;*IDN? ; RANG?;LEV #H5;:sour:FREQ  -1.50E+3 ; :syst:version?" ++ [10] /\
+  spec_message ex_tree m_ok [] f0 = m_ok_result /\
+  r_err m_ok_result = None /\ r_out m_ok_result = bs "5;ACME,42;""AUTO"";VERS 1999.0" ++ [10] /\
+  r_dev m_ok_result = [LCall 3 false; LTyped; LCall 2 true; LCall 1 true; LCall 3 true; LCall 2 false; LTok (TNonDec 5);
+                       LCall 4 false; LTyped; LCall 5 true] /\
+  length (r_trace m_ok_result) = 7%nat.
+Proof.
+  exact (conj ex_tree_wf (conj m_ok_wf (conj (C06_message_semantics ex_tree m_ok [] f0 ex_tree_wf m_ok_wf)
+    (conj m_ok_text (conj m_ok_spec (conj eq_refl (conj eq_refl (conj eq_refl eq_refl)))))))).
+Qed.
+
+(* the second unit is undefined in its context (-113): no handler is invoked for it, nothing is pulled *)
+Example C06_message_semantics_nonvacuous_undefined :
+  wf_tree ex_tree /\ wf_msg m_113 = true /\
+  run ex_tree (render_msg m_113) [] f0 = Val (spec_message ex_tree m_113 [] f0) /\
+  render_msg m_113 = bs ":VOLT:RANG?;FREQ 1;*IDN?" /\
+  spec_message ex_tree m_113 [] f0 = m_113_result /\
+  r_err m_113_result = Some (std_error UndefinedHeader) /\ r_dev m_113_result = [LCall 3 true] /\
+  length (r_trace m_113_result) = 1%nat.
+Proof.
+  exact (conj ex_tree_wf (conj m_113_wf (conj (C06_message_semantics ex_tree m_113 [] f0 ex_tree_wf m_113_wf)
+    (conj m_113_text (conj m_113_spec (conj eq_refl (conj eq_refl eq_refl))))))).
+Qed.
+
+(* the handler program of that second unit (the event form of RANGe) against the unit's two data elements: it
+   consumes the first and returns the second *)
+Example C06_spec_prog_consumes_prefix_nonvacuous :
+  let data := unit_data q2 in
+  let rest := [TNonDec 5] in
+  data = [TDec (bs "5"); TNonDec 5] /\
+  spec_prog (ev c_rng [LCall 1 true]) data (mkFmt None (bs "ACME,42")) None
+  = (rest, [LCall 1 true; LCall 3 false; LTyped], mkFmt None (bs "ACME,42"), None) /\
+  exists used, data = used ++ rest.
+Proof.
+  intros data rest.
+  assert (h : spec_prog (ev c_rng [LCall 1 true]) data (mkFmt None (bs "ACME,42")) None
+    = (rest, [LCall 1 true; LCall 3 false; LTyped], mkFmt None (bs "ACME,42"), None)) by (vm_compute; reflexivity).
+  exact (conj q2_data (conj h (C06_spec_prog_consumes_prefix _ data _ None rest _ _ _ h))).
+Qed.
+(* ... a query program that pulls nothing ("SYST:VERS? MAX" after "*IDN?"): everything is returned, the answer is
+   appended to the response *)
+Example C06_spec_prog_consumes_prefix_nonvacuous_query :
+  let data := [TChar (bs "MAX")] in
+  spec_prog (qu c_ver [LCall 1 true]) data (mkFmt None (bs "ACME,42;")) (Some runit_new)
+  = (data, [LCall 1 true; LCall 5 true], mkFmt None (bs "ACME,42;VERS 1999.0"), None) /\
+  exists used, data = used ++ data.
+Proof.
+  intro data.
+  assert (h : spec_prog (qu c_ver [LCall 1 true]) data (mkFmt None (bs "ACME,42;")) (Some runit_new)
+    = (data, [LCall 1 true; LCall 5 true], mkFmt None (bs "ACME,42;VERS 1999.0"), None)) by (vm_compute; reflexivity).
+  exact (conj h (C06_spec_prog_consumes_prefix _ data _ _ data _ _ _ h)).
+Qed.
+(* ... and a program that asks for more than there is: a required pull on an empty unit fails with -109 *)
+Example C06_spec_prog_consumes_prefix_nonvacuous_missing :
+  spec_prog (ev c_lev []) [] f0 None
+  = ([], [LCall 2 false; LPullErr MissingParameter], f0, Some (std_error MissingParameter)) /\
+  exists used, ([] : list token) = used ++ [].
+Proof.
+  assert (h : spec_prog (ev c_lev []) [] f0 None
+    = ([], [LCall 2 false; LPullErr MissingParameter], f0, Some (std_error MissingParameter))) by (vm_compute; reflexivity).
+  exact (conj h (C06_spec_prog_consumes_prefix _ [] _ _ [] _ _ _ h)).
+Qed.
+
+Print Assumptions C06_message_semantics_nonvacuous.
+Print Assumptions C06_message_semantics_nonvacuous_ok.
+Print Assumptions C06_message_semantics_nonvacuous_undefined.
+Print Assumptions C06_spec_prog_consumes_prefix_nonvacuous.
+Print Assumptions C06_spec_prog_consumes_prefix_nonvacuous_query.
+Print Assumptions C06_spec_prog_consumes_prefix_nonvacuous_missing.
